@@ -97,7 +97,7 @@ Theorem reload_same : forall loaded fuel reqs sfs,
     Forall2 (fun x f => lf_name f = sf_name x /\ lf_desc f = desc_of x /\ lf_enabled f = negb (sf_dis x)) sfs lfs.
 Proof.
   intros loaded fuel reqs sfs Hne Hk Hnd Hok Hl Hfuel.
-  destruct (factory_set_accepted name_pre desc_pre loaded fuel reqs sfs Hne Hk Hok Hfuel) as (text & ns & nps & Hr & Hp & Hps & Hns).
+  destruct (factory_set_accepted name_pre desc_pre loaded fuel reqs sfs Hne Hk Hok Hfuel) as (text & ns & nps & Hr & Hp & Hps & Hns & _).
   unfold from_parser_result.
   destruct reqs as [|r0 rest].
   - subst ns. destruct (load_filters sfs nps 1%N [] Hps Hl) as (lfs & E & Hlf).
